@@ -906,8 +906,16 @@ func (p *context) compileInstrOrValue(b llssa.Builder, iv instrOrValue, asValue 
 				// copy) must see the elements as of this load, not whatever the
 				// source memory holds when the Index executes: keep a private
 				// copy for the Index instructions to address.
-				tmp := b.Alloc(p.type_(v.Type(), llssa.InGo), false)
-				b.Store(tmp, ret)
+				at := p.type_(v.Type(), llssa.InGo)
+				tmp := b.Alloc(at, false)
+				if p.prog.SizeOf(at) > 256 {
+					// a first-class store of a large array is expanded element by
+					// element by the code generator (and brings LLVM down for very
+					// large ones): copy the memory instead
+					b.CopyValue(tmp, x)
+				} else {
+					b.Store(tmp, ret)
+				}
 				if p.arrCopies == nil {
 					p.arrCopies = make(map[*ssa.UnOp]llssa.Expr)
 				}
